@@ -285,4 +285,20 @@ def serializeCompact (O : Oracles) (compact : Bool) (cls : FieldDecl) (x : PyVal
     else serialize O cls x
   | _ => .error (.other "not-a-class")
 
+/-! ### order of first use: when does the class get its serializer -/
+
+/-- `FastSerializable.__init__` installs the class's serializer (when it has none); the validating
+    constructor reaches it once, the trusted branch of `Structure.__init__` calls
+    `super().__init__()` inside its `for key, value in kwargs.items()` loop: once per keyword, and
+    never for an instance made from no values.  `had` = the class already has its serializer. -/
+def installedAfterTrustedInit (had : Bool) (kw : List (String × PyVal)) : Bool := had || !kw.isEmpty
+
+/-- `x.serialize()` of an instance the trusted constructor built from the keywords `attrsOf x`
+    (trusted deserialization, `from_trusted_data`, `trust_supplied_values()` + constructor), on a
+    class created without an explicit `create_serializer` call -/
+def fastSerializeFirst (Mp : MapEnv) (NF JK : List String) (had : Bool) (cls : FieldDecl)
+    (x : PyVal) : R PyVal :=
+  if installedAfterTrustedInit had (attrsOf x) then fastSerialize Mp NF JK false false cls x
+  else .error (.other "NotImplementedError")
+
 end Typedpy
